@@ -20,6 +20,15 @@
 
 #include "internal.h"
 
+#if DISPATCH_VERIF
+/* verification tracepoints around the source decision logic (definitions at the end of this file) */
+static void _dispatch_verif_source_wakeup_hook(dispatch_source_t ds,
+		dispatch_wakeup_flags_t flags, dispatch_queue_wakeup_target_t tq);
+static dispatch_queue_wakeup_target_t _dispatch_verif_source_invoke2(
+		dispatch_source_t ds, dispatch_invoke_context_t dic,
+		dispatch_invoke_flags_t flags, uint64_t *owned);
+#endif
+
 static void _dispatch_source_handler_free(dispatch_source_refs_t ds, long kind);
 
 #pragma mark -
@@ -891,8 +900,13 @@ void
 _dispatch_source_invoke(dispatch_source_t ds, dispatch_invoke_context_t dic,
 		dispatch_invoke_flags_t flags)
 {
+#if DISPATCH_VERIF
+	_dispatch_queue_class_invoke(ds, dic, flags,
+			DISPATCH_INVOKE_DISALLOW_SYNC_WAITERS, _dispatch_verif_source_invoke2);
+#else
 	_dispatch_queue_class_invoke(ds, dic, flags,
 			DISPATCH_INVOKE_DISALLOW_SYNC_WAITERS, _dispatch_source_invoke2);
+#endif
 
 #if DISPATCH_EVENT_BACKEND_KEVENT
 	if (flags & DISPATCH_INVOKE_WORKLOOP_DRAIN) {
@@ -975,6 +989,9 @@ _dispatch_source_wakeup(dispatch_source_t ds, dispatch_qos_t qos,
 		tq = DISPATCH_QUEUE_WAKEUP_MGR;
 	}
 
+#if DISPATCH_VERIF
+	_dispatch_verif_source_wakeup_hook(ds, flags, tq);
+#endif
 	return _dispatch_queue_wakeup(ds, qos, flags, tq);
 }
 
@@ -1439,3 +1456,81 @@ _dispatch_source_debug(dispatch_source_t ds, char *buf, size_t bufsiz)
 			dux_type(dr)->dst_kind);
 	return offset;
 }
+
+#if DISPATCH_VERIF
+#pragma clang diagnostic ignored "-Wmissing-prototypes"
+#pragma clang diagnostic ignored "-Wmissing-variable-declarations"
+#pragma clang diagnostic ignored "-Wconversion"
+#pragma clang diagnostic ignored "-Wsign-conversion"
+/*
+ * kind 0: _dispatch_source_wakeup decided `result` (0 none, 1 target, 2 manager) for `view`; aux = wakeup flags |
+ *         (1 << 31 if the source's own queue has items)
+ * kind 1: _dispatch_source_invoke2 is entered with `view`; aux = 1 on the target queue, 2 on the manager queue, 0 other
+ * kind 2: _dispatch_source_invoke2 returned `result` (0 none, 1 target, 2 manager, 3 wait-for-event, 4 other); view = after
+ */
+__attribute__((visibility("default")))
+void (*_dispatch_verif_source_cb)(int kind, void *ds, void *ctxt, uint32_t view, long result, uint64_t aux) = 0;
+
+static uint32_t
+_dispatch_verif_source_view(dispatch_source_t ds)
+{
+	dispatch_source_refs_t dr = ds->ds_refs;
+	dispatch_queue_flags_t dqf = _dispatch_queue_atomic_flags(ds);
+	uint32_t v = 0;
+	if (ds->ds_is_installed) v |= 1u << 0;
+	if (dqf & (DSF_CANCELED | DQF_RELEASED)) v |= 1u << 1;
+	if (dqf & DSF_DELETED) v |= 1u << 2;
+	if (dqf & DSF_NEEDS_EVENT) v |= 1u << 3;
+	if (_dispatch_source_refs_needs_configuration(dr)) v |= 1u << 4;
+	if (_dispatch_source_get_registration_handler(dr)) v |= 1u << 5;
+	if (_dispatch_unote_needs_delete(dr)) v |= 1u << 6;
+	if (os_atomic_load2o(dr, ds_pending_data, relaxed)) v |= 1u << 7;
+	if (dr->du_is_timer && !_dispatch_unote_armed(dr)) v |= 1u << 8;
+	if (dr->du_is_direct) v |= 1u << 9;
+	if (_dispatch_source_refs_needs_rearm(dr)) v |= 1u << 10;
+	if (_dispatch_source_get_event_handler(dr) ||
+			_dispatch_source_get_cancel_handler(dr)) v |= 1u << 11;
+	if (DISPATCH_QUEUE_IS_SUSPENDED(ds)) v |= 1u << 12;
+	return v;
+}
+
+static long
+_dispatch_verif_target_kind(dispatch_source_t ds, dispatch_queue_wakeup_target_t tq)
+{
+	if (tq == DISPATCH_QUEUE_WAKEUP_NONE) return 0;
+	if (tq == DISPATCH_QUEUE_WAKEUP_TARGET || tq == ds->do_targetq) return 1;
+	if (tq == DISPATCH_QUEUE_WAKEUP_MGR || tq == _dispatch_mgr_q._as_dq) return 2;
+	if (tq == DISPATCH_QUEUE_WAKEUP_WAIT_FOR_EVENT) return 3;
+	return 4;
+}
+
+static void
+_dispatch_verif_source_wakeup_hook(dispatch_source_t ds,
+		dispatch_wakeup_flags_t flags, dispatch_queue_wakeup_target_t tq)
+{
+	if (likely(!_dispatch_verif_source_cb)) return;
+	uint64_t aux = (uint64_t)flags;
+	if (_dispatch_queue_class_probe(ds)) aux |= 1ull << 31;
+	_dispatch_verif_source_cb(0, ds, ds->do_ctxt, _dispatch_verif_source_view(ds),
+			_dispatch_verif_target_kind(ds, tq), aux);
+}
+
+static dispatch_queue_wakeup_target_t
+_dispatch_verif_source_invoke2(dispatch_source_t ds, dispatch_invoke_context_t dic,
+		dispatch_invoke_flags_t flags, uint64_t *owned)
+{
+	dispatch_queue_wakeup_target_t r;
+	if (likely(!_dispatch_verif_source_cb)) {
+		return _dispatch_source_invoke2(ds, dic, flags, owned);
+	}
+	dispatch_queue_t dq = _dispatch_queue_get_current();
+	uint64_t cur = dq == ds->do_targetq ? 1 : dq == _dispatch_mgr_q._as_dq ? 2 : 0;
+	if (_dispatch_queue_class_probe(ds)) cur |= 1ull << 31;
+	void *ctxt = ds->do_ctxt;
+	_dispatch_verif_source_cb(1, ds, ctxt, _dispatch_verif_source_view(ds), 0, cur);
+	r = _dispatch_source_invoke2(ds, dic, flags, owned);
+	_dispatch_verif_source_cb(2, ds, ctxt, _dispatch_verif_source_view(ds),
+			_dispatch_verif_target_kind(ds, r), cur);
+	return r;
+}
+#endif // DISPATCH_VERIF
